@@ -558,62 +558,61 @@ REPLAY_INPUTS = """/* generated: solver-chosen inputs for native replay (value o
 
 
 def replay(build, q, gb, failed, outroot, prop_id):
-    """Replay the first failing property natively. Returns dict(path, reproduced, how)."""
+    """Replay failing properties natively (first one that reproduces wins). Returns dict(path, reproduced, how)."""
     ts = time.strftime("%Y%m%d-%H%M%S")
     path = os.path.join(outroot, "%s_%s_%s" % (prop_id, re.sub(r"\W", "_", q.name), ts))
     os.makedirs(path, exist_ok=True)
-    info = {"path": path, "reproduced": False, "how": "", "query": q.name, "failed": failed[:6]}
-    trace, why = None, ""
-    for f in failed[:3]:
-        trace, why = get_trace(build, q, gb, f[0], max(q.timeout, 120) * 2, q.mem_gb * 1.5)
-        if trace:
-            info["property"] = f[0]
-            info["description"] = f[1]
-            break
-    if not trace:
-        info["how"] = "could not obtain trace: " + why
-        json.dump(info, open(os.path.join(path, "report.json"), "w"), indent=1)
-        return info
-    val = extract_inputs(trace)
-    if val is None:
-        info["how"] = "trace has no assignment to IN"
-        json.dump(info, open(os.path.join(path, "report.json"), "w"), indent=1)
-        return info
-    init = _c_value(val)
-    info["inputs"] = init[:4000]
-    hname = os.path.splitext(q.harness)[0]
-    open(os.path.join(path, "replay_inputs.h"), "w").write(REPLAY_INPUTS % {"init": init})
-    # keep a copy of the harness source used
+    info = {"path": path, "reproduced": False, "how": "", "query": q.name, "failed": failed[:6], "attempts": []}
+    leaks = "--memory-leak-check" in q.flags
     shutil.copy(os.path.join(HARNESS, q.harness), path)
-    steps = [s for s in trace if s.get("stepType") in ("failure",)]
-    open(os.path.join(path, "cbmc_failure.json"), "w").write(json.dumps(steps, indent=1)[:20000])
-    try:
-        exe = native_build(build, q, path)
-    except FrameworkError as e:
-        info["how"] = "native build failed: " + str(e)[:3000]
-        json.dump(info, open(os.path.join(path, "report.json"), "w"), indent=1)
-        return info
-    rc, out = run_native(exe)
-    open(os.path.join(path, "native_output.txt"), "w").write("exit=%s\n%s" % (rc, out[-20000:]))
+    json.dump({"query": dataclasses.asdict(q)}, open(os.path.join(path, "query.json"), "w"), indent=1, default=str)
     with open(os.path.join(path, "run.sh"), "w") as f:
         f.write("#!/bin/sh\n# re-run the native replay of this counterexample against /repo's current sources\n"
                 "exec %s/bin/check %s --replay %s\n" % (VERIF, prop_id, path))
     os.chmod(os.path.join(path, "run.sh"), 0o755)
-    json.dump({"query": dataclasses.asdict(q)}, open(os.path.join(path, "query.json"), "w"), indent=1, default=str)
-    if rc == "timeout":
-        info["reproduced"], info["how"] = True, "native run hangs"
-    elif rc == 98:
-        info["how"] = "native run left the assumed input domain (model/encoding mismatch)"
-    elif rc != 0:
-        info["reproduced"] = True
-        m = re.search(r"(ERROR: AddressSanitizer: [^\n]*|runtime error: [^\n]*|REPLAY-ASSERT-FAIL: [^\n]*)", out)
-        info["how"] = m.group(1) if m else "native run exit=%s" % rc
-    else:
-        info["how"] = "native run completed cleanly (exit 0): counterexample not reproduced"
-    try:
-        os.unlink(exe)
-    except OSError:
-        pass
+    # distinct failing properties, harness-level assertions first (they state the property), at most 4 attempts
+    order = sorted(failed, key=lambda f: 0 if ".assertion." in f[0] else 1)
+    for f in order[:4]:
+        att = {"property": f[0], "description": f[1]}
+        info["attempts"].append(att)
+        trace, why = get_trace(build, q, gb, f[0], max(q.timeout, 120) * 2, q.mem_gb * 1.5)
+        if not trace:
+            att["how"] = "could not obtain trace: " + why
+            continue
+        val = extract_inputs(trace)
+        if val is None:
+            att["how"] = "trace has no assignment to IN"
+            continue
+        init = _c_value(val)
+        open(os.path.join(path, "replay_inputs.h"), "w").write(REPLAY_INPUTS % {"init": init})
+        steps = [s_ for s_ in trace if s_.get("stepType") in ("failure",)]
+        open(os.path.join(path, "cbmc_failure.json"), "w").write(json.dumps(steps, indent=1)[:20000])
+        try:
+            exe = native_build(build, q, path)
+        except FrameworkError as e:
+            att["how"] = "native build failed: " + str(e)[:3000]
+            continue
+        rc, out = run_native(exe, leaks)
+        open(os.path.join(path, "native_output.txt"), "w").write("exit=%s\n%s" % (rc, out[-20000:]))
+        try:
+            os.unlink(exe)
+        except OSError:
+            pass
+        if rc == "timeout":
+            att["reproduced"], att["how"] = True, "native run hangs"
+        elif rc == 98:
+            att["how"] = "native run left the assumed input domain (model/encoding mismatch)"
+        elif rc != 0:
+            att["reproduced"] = True
+            m = re.search(r"(ERROR: AddressSanitizer: [^\n]*|ERROR: LeakSanitizer: [^\n]*|runtime error: [^\n]*|REPLAY-ASSERT-FAIL: [^\n]*)", out)
+            att["how"] = m.group(1) if m else "native run exit=%s" % rc
+        else:
+            att["how"] = "native run completed cleanly (exit 0): counterexample not reproduced"
+        if att.get("reproduced"):
+            info.update(reproduced=True, how=att["how"], property=f[0], description=f[1], inputs=init[:4000])
+            break
+    if not info["reproduced"]:
+        info["how"] = "; ".join("%s: %s" % (a_["property"], a_.get("how", "")) for a_ in info["attempts"])
     json.dump(info, open(os.path.join(path, "report.json"), "w"), indent=1)
     return info
 
@@ -795,8 +794,8 @@ def _q_from_json(d):
     return Q(units=units, **kw)
 
 
-def run_native(exe):
-    env = dict(os.environ, ASAN_OPTIONS="detect_leaks=0:abort_on_error=0:exitcode=99", UBSAN_OPTIONS="print_stacktrace=1:halt_on_error=1")
+def run_native(exe, leaks=False):
+    env = dict(os.environ, ASAN_OPTIONS="detect_leaks=%d:abort_on_error=0:exitcode=99" % (1 if leaks else 0), UBSAN_OPTIONS="print_stacktrace=1:halt_on_error=1")
     try:
         r = subprocess.run([exe], capture_output=True, text=True, timeout=20, env=env, errors="replace")
         return r.returncode, r.stdout + r.stderr
@@ -815,7 +814,7 @@ def rerun_replay(prop, mod, path):
         os.makedirs(out)
         shutil.copy(os.path.join(path, "replay_inputs.h"), out)
         exe = native_build(build, q, out)
-        rc, txt = run_native(exe)
+        rc, txt = run_native(exe, "--memory-leak-check" in q.flags)
         print(txt[-6000:])
         if rc == 0:
             print("REPLAY: clean run (the recorded input no longer violates %s)" % prop)
